@@ -84,6 +84,7 @@ class RespRun:
         self._wire: Optional[Dict[Tuple, List[Tuple[float, float, int]]]] = None
         self.sends: List[Dict[str, Any]] = []
         self.infos: List[Any] = []
+        self.in_flight: Dict[int, Any] = {}
         self.host: Optional[sim.Host] = None
         self.t_settled_ms = 0.0
         self.errors: List[Any] = []
@@ -315,6 +316,8 @@ class RespRun:
                 if any(e['kind'] == 'close' for e in self.api_events) and type(t.exception()).__name__ in (
                         'NotRunningException', 'NonUniqueNameException', 'EventLoopBlocked'):
                     continue      # the instance was closed while the registration was under way: a documented outcome
+                if getattr(self, 'unregistered_while_probing', 0) and type(t.exception()).__name__ == 'NonUniqueNameException':
+                    continue      # given up by the application while probing, and the name registered again meanwhile
                 raise HarnessError(f'background registration failed: {t.exception()!r}')
 
     def _src(self, ev: Dict[str, Any]) -> Tuple:
@@ -397,10 +400,13 @@ class RespRun:
 
             async def late_register() -> None:
                 info = sim.make_service_info(d)
+                self.in_flight[k] = info
                 if d.get('ttl_arg') is not None:
                     await host.azc.async_register_service(info, ttl=d['ttl_arg'])
                 else:
                     await host.azc.async_register_service(info)      # returns after probing; the announcements go on in a task
+                if self.in_flight.pop(k, None) is None:
+                    return            # unregistered by the application while it was probing: it is not registered
                 self.infos[k] = info
                 self.model.register(d)
                 w.gseq += 1
@@ -425,12 +431,19 @@ class RespRun:
         elif kind == 'unregister':
             k = ev['svc'] % len(self.infos)
             info = self.infos[k]
+            probing = False
+            if info is None and k in self.in_flight:
+                # the application unregisters a service whose registration call has not returned yet (it is still probing)
+                info = self.in_flight.pop(k)
+                probing = True
+                self.unregistered_while_probing = getattr(self, 'unregistered_while_probing', 0) + 1
             if info is not None:
                 w.gseq += 1
                 self.api_events.append({'kind': 'unregister', 'g': w.gseq, 't_ms': w.now_ms, 'svc': k,
                                         'desc': dict(self.sc['services'][k])})
                 self.infos[k] = None
-                self.model.unregister(self.sc['services'][k]['name'])
+                if not probing:
+                    self.model.unregister(self.sc['services'][k]['name'])
                 if ev.get('fresh_object'):
                     # the application unregisters with a ServiceInfo it builds anew from the same data, not with the registered object
                     info = sim.make_service_info({kk: vv for kk, vv in self.sc['services'][k].items() if kk != 'late'})
